@@ -286,6 +286,11 @@ func ModuleFileList(r *rand.Rand) []ZipFileSpec {
 		f.P = "go.mod"
 		fs = append(fs, f)
 	}
+	if r.Intn(12) == 0 {
+		f := zipFileFor(r, "LICENSE", false)
+		f.Size = zMaxLICENSE + int64(r.Intn(3)) - 1
+		fs = append(fs, f)
+	}
 	for len(fs) < n {
 		var p string
 		switch k := r.Intn(100); {
